@@ -380,7 +380,9 @@ def buffered_variants(item):
         n_ = len(hist)
         brs = [((0, n_),), ((0, n_ // 2), (n_ // 2, n_)), ((0, n_), (1, n_ - 1)), ((1, n_),), ((0, n_ - 1),)]
     else:
-        brs = [((0, len(hist)),)]
+        # one block around everything, and one around everything but the first operation (the block then starts from
+        # whatever the first operation left on disk)
+        brs = [((0, len(hist)),)] + ([((1, len(hist)),)] if len(hist) >= 3 else [])
     for br in brs:
         if not br:
             continue
@@ -396,6 +398,10 @@ def buffered_variants(item):
         # the block exit raise BufferedError in the dependency; the property speaks of mapping operations)
         for (i, j) in br:
             if any(hist[k2][1][0] == "remove" for k2 in range(i, j)):
+                multi = True
+            # remove()+init() inside a block is only defined for a document that the block itself created: if the file was
+            # there before the block, the dependency reports the replaced file as a foreign change (BufferedError) on exit
+            if i > 0 and any(hist[k2][1][0] == "recreate" for k2 in range(i, j)):
                 multi = True
         if multi:
             skipped += 1
